@@ -267,21 +267,22 @@ func cdRoundTripDiff(e, p *girc.Event) string {
 // ---- generators ----------------------------------------------------------------------
 
 var (
-	cdCmdPool    = []string{"PRIVMSG", "NOTICE", "001", "005", "privmsg", "CAP", "Ping", "JOIN", "MODE", "TAGMSG", "xy", "353"}
-	cdCmdOdd     = []string{"", "A", ":x", "@x", "PRIV MSG", "caf\xc3\xa9", "\xc4\xb1d", "a\xc5\xbf", "\xffQ", "pr\tiv", "q\x00", "12", "P\r\nQ"}
-	cdWordPool   = []string{"#chan", "nick", "a", "CHANLIMIT=#:120", "x:y", "b\tc", "d\xc2\xa0e", "f\xe2\x80\x83g", "h\vi", "+o", "*", "caf\xc3\xa9", "::", "a:", "\x01ACTION", "k=v", "@at", "!bang", "$", "0"}
-	cdWordOdd    = []string{"", ":lead", "sp ace", "nul\x00", "cr\rlf\n", "\xff", "\xe2\x82", " "}
-	cdLastPool   = []string{"", "hello world", ":colon", "plain", "tab\there", "nb\xc2\xa0sp", "em\xe2\x80\x83sp", "v\vt", " lead", "trail ", "  ", ": x", "a :b :c", ":", "::", "x:y", "\x01ACTION waves\x01", "caf\xc3\xa9 \xe2\x82\xac"}
-	cdLastOdd    = []string{"cr\rlf\n", "\r", "nul\x00x", "\xff\xfe", "a\xe2\x82", "\nQUIT :x"}
-	cdNamePool   = []string{"nick", "irc.example.org", "n[i]ck", "N", "caf\xc3\xa9", "a-b", "*"}
-	cdIdentPool  = []string{"", "user", "~u", "u!x", "i.d"}
-	cdHostPool   = []string{"", "host.example", "1.2.3.4", "::1", "h/cloak", "a:b"}
-	cdSrcOdd     = []string{" x", "a@b", "a!b", "!", "@", "\xff", "x\r", "a b"}
-	cdKeyPool    = []string{"a", "time", "account", "msgid", "example.com/ddd", "a.b/c", "+client", "+example.com/foo", "draft/label", "k-1", "k_2", "z", "B"}
-	cdKeyOdd     = []string{"", "+", "a b", "a=b", "k;", "caf\xc3\xa9", "@k", "a\x00", "++"}
-	cdRawValPool = []string{"", "v", "bbb", `a\sb`, `\:\s\\\r\n`, `\\\\`, `\\s`, "2019-02-21T20:12:03.000Z", "2011-10-19T16:40:51.620Z", "=eq=", "x/y", "~"}
-	cdRawValOdd  = []string{`a\`, `\x`, `\`, `a\bc`, "sp ace", "se;mi", "caf\xc3\xa9", "\x01", `\\\`, "\xff", "a\rb"}
-	cdPlainVals  = []string{"", "x", "a b", "a;b", `a\b`, "cr\rlf\n", `; \` + "\r\n", `\\`, `\s`, "  ", ";;", "caf\xc3\xa9", "tab\t", "plain-value_1", `trail\`}
+	cdCmdPool       = []string{"PRIVMSG", "NOTICE", "001", "005", "privmsg", "CAP", "Ping", "JOIN", "MODE", "TAGMSG", "xy", "353"}
+	cdCmdOdd        = []string{"", "A", ":x", "@x", "PRIV MSG", "caf\xc3\xa9", "\xc4\xb1d", "a\xc5\xbf", "\xffQ", "pr\tiv", "q\x00", "12", "P\r\nQ"}
+	cdWordPool      = []string{"#chan", "nick", "a", "CHANLIMIT=#:120", "x:y", "b\tc", "d\xc2\xa0e", "f\xe2\x80\x83g", "h\vi", "+o", "*", "caf\xc3\xa9", "::", "a:", "\x01ACTION", "k=v", "@at", "!bang", "$", "0"}
+	cdWordOdd       = []string{"", ":lead", "sp ace", "nul\x00", "cr\rlf\n", "\xff", "\xe2\x82", " "}
+	cdLastPool      = []string{"", "hello world", ":colon", "plain", "tab\there", "nb\xc2\xa0sp", "em\xe2\x80\x83sp", "v\vt", " lead", "trail ", "  ", ": x", "a :b :c", ":", "::", "x:y", "\x01ACTION waves\x01", "caf\xc3\xa9 \xe2\x82\xac"}
+	cdLastOdd       = []string{"cr\rlf\n", "\r", "nul\x00x", "\xff\xfe", "a\xe2\x82", "\nQUIT :x"}
+	cdNamePool      = []string{"nick", "irc.example.org", "n[i]ck", "N", "caf\xc3\xa9", "a-b", "*"}
+	cdIdentPool     = []string{"", "user", "~u", "u!x", "i.d"}
+	cdHostPool      = []string{"", "host.example", "1.2.3.4", "::1", "h/cloak", "a:b"}
+	cdSrcOdd        = []string{" x", "a@b", "a!b", "!", "@", "\xff", "x\r", "a b"}
+	cdKeyPool       = []string{"a", "time", "account", "msgid", "example.com/ddd", "a.b/c", "+client", "+example.com/foo", "draft/label", "k-1", "k_2", "z", "B"}
+	cdKeyOdd        = []string{"", "+", "a b", "a=b", "k;", "caf\xc3\xa9", "@k", "a\x00", "++", "a:b", "a[b", "a{b", "a,b", "a`b", "a@b", "a+b", "Z", "z9-./_"}
+	cdRawValPool    = []string{"", "v", "bbb", `a\sb`, `\:\s\\\r\n`, `\\\\`, `\\s`, `\\n`, `\\r`, `\\:`, `a\\sb\\:c\\\\n`, `\\\s`, `x\\`, "2019-02-21T20:12:03.000Z", "2011-10-19T16:40:51.620Z", "=eq=", "x/y", "~"}
+	cdRawValOdd     = []string{`a\`, `\x`, `\`, `a\bc`, "sp ace", "se;mi", "caf\xc3\xa9", "\x01", `\\\`, "\xff", "a\rb"}
+	cdBackslashVals = []string{`\`, `\\`, `\\\`, `\s`, `\n`, `\r`, `\:`, `\\s`, `\\n`, `C:\new\share`, `C:\report\sales`, `a\:b`, `x\`, `\x`, `\s\n\r\:\\`, `n\s`, `\\\\s`}
+	cdPlainVals     = []string{"", "x", "a b", "a;b", `a\b`, "cr\rlf\n", `; \` + "\r\n", `\\`, `\s`, "  ", ";;", "caf\xc3\xa9", "tab\t", "plain-value_1", `trail\`, "\x7f", "!", "~", "\x80"}
 )
 
 func cdPickS(r *rand.Rand, xs []string) string { return xs[r.Intn(len(xs))] }
@@ -376,7 +377,7 @@ func cdGenEvCase(r *rand.Rand, odd int) cdEvCase {
 			case 2:
 				v = cdSpecEscape(RandBytes(r, r.Intn(12), `ab; \`+"\r\n:sn"))
 			default:
-				v = RandBytes(r, r.Intn(8), `abc\:sxyz019=/`)
+				v = RandBytes(r, r.Intn(8), `abc:sxyz019=/~!`)
 			}
 			if isOdd() {
 				v = cdPickS(r, cdRawValOdd)
@@ -659,6 +660,272 @@ func init() {
 				res.Oracle = cdRoundTripDiff(e, p)
 			} else {
 				res.Sig = "illformed/" + cdParseSig(line, p)
+			}
+			return res
+		},
+	})
+}
+
+// ---- codec.tags / codec.source ----------------------------------------------------------
+
+func cdTagsSetRun(c Case, initNil bool) Result {
+	var t girc.Tags
+	if !initNil {
+		t = girc.Tags{}
+	}
+	ops := c[2:]
+	log := ""
+	oracle := ""
+	want := map[string]string{} // what Get must return: the values given to successful Sets
+	for i := 0; i+1 < len(ops); i += 2 {
+		k, v := ops[i], ops[i+1]
+		if err := t.Set(k, v); err != nil {
+			log += "E"
+		} else {
+			log += "O"
+			want[k] = v
+			if t == nil && oracle == "" {
+				if _, ok := t.Get(k); !ok {
+					oracle = "tags-set-nil: Set on a nil Tags reports success but the value is lost"
+				}
+			}
+		}
+		if t != nil && oracle == "" {
+			for wk, wv := range want {
+				if got, ok := t.Get(wk); !ok || got != wv {
+					if wk == k {
+						oracle = "tags-get-after-set: Get does not return the value given to Set"
+					} else {
+						oracle = "tags-set-other-keys: Set disturbed another key"
+					}
+					break
+				}
+			}
+			if len(t) != len(want) {
+				oracle = "tags-set-other-keys: key set differs from the successfully set keys"
+			}
+		}
+	}
+	if t != nil && len(t) > 0 && oracle == "" {
+		// the same values must come back after serialising an event and parsing it
+		e := &girc.Event{Command: "TAGMSG", Params: []string{"#c"}, Tags: t}
+		p := girc.ParseEvent(e.String())
+		if p == nil {
+			oracle = "tags-get-after-roundtrip: event with Set tags does not parse back"
+		} else {
+			for wk, wv := range want {
+				if got, ok := p.Tags.Get(wk); !ok || got != wv {
+					oracle = "tags-get-after-roundtrip: Get after String/ParseEvent differs from the value given to Set"
+					break
+				}
+			}
+			if oracle == "" && len(p.Tags) != len(want) {
+				oracle = "tags-get-after-roundtrip: key set changed"
+			}
+		}
+	}
+	gets := []string{}
+	for i := 0; i+1 < len(ops); i += 2 {
+		var g *string
+		if v, ok := t.Get(ops[i]); ok {
+			g = &v
+		}
+		gets = append(gets, OptHex(g))
+	}
+	sig := "set/" + strings.Trim(strings.Replace(strings.Replace(log, "OO", "O", -1), "EE", "E", -1), "")
+	if len(sig) > 12 {
+		sig = sig[:12]
+	}
+	if initNil {
+		sig += "/nil"
+	}
+	return Result{Obs: log + "|" + cdShowTags(t, false) + "|" + Hex(string(t.Bytes())) + "|" + strings.Join(gets, ","), Oracle: oracle, Sig: sig}
+}
+
+func cdGenSetOps(r *rand.Rand) []string {
+	var ops []string
+	if r.Intn(25) == 0 { // exactly around the 4094-byte limit: "@k=" + n bytes, then a second tag
+		n := 4086 + r.Intn(10)
+		ops = append(ops, "k", strings.Repeat("v", n))
+		ops = append(ops, cdPickS(r, []string{"j", "a", "zz"}), strings.Repeat("w", r.Intn(6)))
+		if r.Intn(2) == 0 {
+			ops = append(ops, "k", strings.Repeat("v", r.Intn(5)))
+			ops = append(ops, "m", strings.Repeat("x", 4080+r.Intn(16)))
+		}
+		return ops
+	}
+	for i := r.Intn(7); i > 0; i-- {
+		k := cdPickS(r, cdKeyPool)
+		if r.Intn(10) == 0 {
+			k = cdPickS(r, cdKeyOdd)
+		}
+		var v string
+		switch r.Intn(7) {
+		case 5: // backslash only: literal backslashes before each of : s \ r n, no other escapable byte
+			v = cdPickS(r, cdBackslashVals)
+		case 6:
+			v = RandBytes(r, 1+r.Intn(8), `\\\:snrab`)
+		case 0:
+			v = cdPickS(r, cdPlainVals)
+		case 1:
+			v = RandBytes(r, r.Intn(12), `ab; \`+"\r\n:sn")
+		case 2:
+			v = RandBytes(r, r.Intn(6), "")
+		case 3:
+			v = cdPickS(r, cdRawValPool)
+		default:
+			v = RandBytes(r, r.Intn(10), "abcXYZ019-_=/~!")
+		}
+		if r.Intn(60) == 0 {
+			v = strings.Repeat("x", 1300+r.Intn(1500))
+		}
+		ops = append(ops, k, v)
+	}
+	return ops
+}
+
+func init() {
+	Register(&Suite{
+		Name: "codec.tags",
+		Prop: []string{"C01", "C02"},
+		Fixed: func() []Case {
+			out := []Case{}
+			for _, raw := range []string{"", "@", "a", "a=", "=a", "a=b", "a=b;a=c", "a;b;c", "@a=b;c;example.com/ddd=eee", "a=b\\sc\\:\\\\\\r\\n", "a=\\", "a=\\x", "+a=1", "+=1", "+", ";;", "a==b", "a b=c", "a=b c", "caf\xc3\xa9", "caf\xc3\xa9=1", "@@a"} {
+				out = append(out, Case{"P", raw})
+			}
+			out = append(out,
+				Case{"S", "m", "a", "b"},
+				Case{"S", "m", "p", `C:\new\share`, "q", `\s`, "r", `\\n`, "s", `\`, "t", `\:\r`},
+				Case{"S", "m", "a", "; \\\r\n", "b", "", "a", "x"},
+				Case{"S", "m", "bad key", "v", "k", "caf\xc3\xa9", "k", "\x00"},
+				Case{"S", "m", "k", strings.Repeat("v", 4091)},
+				Case{"S", "m", "k", strings.Repeat("v", 4092)},
+				Case{"S", "m", "k", strings.Repeat("v", 4089), "j", ""},
+				Case{"S", "m", "k", strings.Repeat("v", 4088), "j", ""},
+				Case{"S", "m", "k", strings.Repeat("v", 4086), "j", "w"},
+				Case{"S", "m", "k", strings.Repeat("v", 4087), "j", "w"},
+				Case{"S", "m", "k", strings.Repeat("v", 4090)},
+				Case{"S", "m", "a", strings.Repeat("v", 2044), "b", strings.Repeat("v", 2044)},
+				Case{"S", "m", "a", strings.Repeat("v", 2043), "b", strings.Repeat("v", 2043), "c", ""},
+			)
+			return out
+		},
+		Gen: func(r *rand.Rand) Case {
+			if r.Intn(3) == 0 {
+				var sb strings.Builder
+				if r.Intn(5) == 0 {
+					sb.WriteByte('@')
+				}
+				for i := r.Intn(6); i >= 0; i-- {
+					k := cdPickS(r, cdKeyPool)
+					if r.Intn(8) == 0 {
+						k = cdPickS(r, cdKeyOdd)
+					}
+					sb.WriteString(k)
+					switch r.Intn(4) {
+					case 0:
+					case 1:
+						sb.WriteString("=" + cdPickS(r, cdRawValPool))
+					case 2:
+						sb.WriteString("=" + cdPickS(r, cdRawValOdd))
+					default:
+						sb.WriteString("=" + cdSpecEscape(cdPickS(r, cdPlainVals)))
+					}
+					if i > 0 {
+						sb.WriteByte(';')
+					}
+				}
+				raw := sb.String()
+				if r.Intn(6) == 0 {
+					raw = cdMutate(r, raw)
+				}
+				return Case{"P", raw}
+			}
+			return append(Case{"S", "m"}, cdGenSetOps(r)...)
+		},
+		Run: func(c Case) Result {
+			if c[0] == "P" {
+				t := girc.ParseTags(c[1])
+				res := Result{Obs: cdShowTags(t, false) + "|" + cdShowTags(t, true) + "|" + Hex(string(t.Bytes())) + "|" + strconv.Itoa(t.Len()), Sig: "parse/" + strconv.Itoa(len(t))}
+				return res
+			}
+			return cdTagsSetRun(c, len(c) > 1 && strings.HasPrefix(c[1], "n"))
+		},
+	})
+
+	// Set on a nil Tags: kept apart from codec.tags (not listed in conf/C01.json) because
+	// the current Go code loses the value while reporting success; see
+	// notes/proposed-fixes/tags-set-nil.diff.
+	Register(&Suite{
+		Name:  "codec.tags.nilrecv",
+		Prop:  []string{"C01"},
+		Fixed: func() []Case { return []Case{{"S", "n", "a", "b"}, {"S", "n", "bad key", "v"}} },
+		Gen:   func(r *rand.Rand) Case { return append(Case{"S", "n"}, cdGenSetOps(r)...) },
+		Run:   func(c Case) Result { return cdTagsSetRun(c, true) },
+	})
+
+	Register(&Suite{
+		Name: "codec.source",
+		Prop: []string{"C01", "C02"},
+		Fixed: func() []Case {
+			var out []Case
+			// every string of length <= 4 over {'!', '@', 'a', ' '}
+			alpha := []byte("!@a ")
+			var rec func(prefix []byte, depth int)
+			rec = func(prefix []byte, depth int) {
+				out = append(out, Case{string(prefix)})
+				if depth == 0 {
+					return
+				}
+				for _, b := range alpha {
+					rec(append(append([]byte{}, prefix...), b), depth-1)
+				}
+			}
+			rec(nil, 4)
+			return out
+		},
+		Exhaustive: "every string of length <= 4 over '!' '@' 'a' SPACE (341 strings)",
+		Gen: func(r *rand.Rand) Case {
+			if r.Intn(4) == 0 {
+				return Case{RandBytes(r, r.Intn(20), "ab!@. \xc3\xa9")}
+			}
+			s := &girc.Source{Name: cdPickS(r, cdNamePool)}
+			if r.Intn(2) == 0 {
+				s.Ident = cdPickS(r, cdIdentPool)
+			}
+			if r.Intn(2) == 0 {
+				s.Host = cdPickS(r, cdHostPool)
+			}
+			if r.Intn(8) == 0 {
+				s.Name = cdPickS(r, cdSrcOdd)
+			}
+			raw := s.Name
+			if s.Ident != "" {
+				raw += "!" + s.Ident
+			}
+			if s.Host != "" {
+				raw += "@" + s.Host
+			}
+			return Case{raw}
+		},
+		Run: func(c Case) Result {
+			s := girc.ParseSource(c[0])
+			res := Result{Obs: cdShowSrc(s) + "|" + Hex(s.String()) + "|" + strconv.Itoa(s.Len()), Sig: "src"}
+			if s.Ident != "" {
+				res.Sig += "/i"
+			}
+			if s.Host != "" {
+				res.Sig += "/h"
+			}
+			if string(s.Bytes()) != s.String() {
+				res.Oracle = "source-bytes: Bytes and String differ"
+			}
+			// round trip: a source that is well-formed per the statement is reproduced
+			if cdWfSource(s) {
+				q := girc.ParseSource(s.String())
+				if *q != *s {
+					res.Oracle = "source-roundtrip: ParseSource(String()) differs"
+				}
 			}
 			return res
 		},
